@@ -435,6 +435,35 @@ func (w *emitWorld) rotate(r int) {
 	w.c.DesignateAlphabet(pubs)
 }
 
+// orphanEmit: an Alphabet contract whose index has no committee member (index >= committee size, e.g. after the
+// committee shrank) has no "own Alphabet node": nobody can trigger its emission.
+func (w *emitWorld) orphanEmit(h *ev.History, gasBal int64) {
+	c := w.c
+	for _, extra := range []int{0, 2} {
+		index := c.N + extra
+		nm := fmt.Sprintf("orphan%d", index)
+		orphan := c.Deploy(chainkit.ContractNamed("alphabet", nm), []any{false, w.fs.H["netmap"], w.proxy, nm, int64(index), int64(c.N)})
+		w.names[orphan] = fmt.Sprintf("Alphabet contract with index %d (committee of %d)", index, c.N)
+		if gasBal > 0 {
+			if o := c.Invoke([]neotest.Signer{c.Validators}, c.NativeHash(nativenames.Gas), "transfer", c.Validators.ScriptHash(), orphan, gasBal, nil); !o.Halt {
+				fail("C19 harness: fund orphan: %s", o)
+			}
+		}
+		watch := append(append([]util.Uint160{orphan, w.proxy}, w.ir...), w.former...)
+		for i := 0; i < c.N; i++ {
+			pre := gasLedger(c, watch)
+			o := c.Invoke([]neotest.Signer{c.Member(i)}, orphan, "emit")
+			what := fmt.Sprintf("emit of an Alphabet contract with index %d on a committee of %d by member %d", index, c.N, i)
+			h.Op("%s -> %s", what, o)
+			if o.Halt {
+				fail("C19: %s was accepted although the contract has no own Alphabet node", what)
+			}
+			expectDeltas("C19", c, pre, map[util.Uint160]int64{}, w.names, what)
+		}
+		h.Mark("emit-of-a-contract-without-own-node")
+	}
+}
+
 // emitOnce sets the contract's balances, triggers emit and checks the split.
 func (w *emitWorld) emitOnce(h *ev.History, idx int, gasBal int64, neo int64, caller string) {
 	c := w.c
@@ -514,7 +543,7 @@ func (w *emitWorld) emitOnce(h *ev.History, idx int, gasBal int64, neo int64, ca
 func TestC19Emit(t *testing.T) {
 	theT = t
 	col := ev.New("C19", "emit",
-		"complete enumeration of Inner Ring sizes 1..7 x contract GAS balances {0,1,2,3,7,8,9,15,16,17,100,10^8,10^12-1,10^12} x NEO {0,100} x callers {own Alphabet node, another committee member, the Alphabet multisignature, a stranger} on committees of 1 and 4 keys (contract index 0 and last); oracle: with g = balance + GAS minted by the NEO self-transfer (read from the native GAS notification), Proxy +floor(g/2), each Inner Ring node +floor((g-floor(g/2))*7/8/N), the contract keeps the rest, nobody else changes; refused callers and g<2 change nothing; non-trivial = every case",
+		"complete enumeration of Inner Ring sizes 1..7 x contract GAS balances {0,1,2,3,7,8,9,15,16,17,100,10^8,10^12-1,10^12} x NEO {0,100} x callers {own Alphabet node, another committee member, the Alphabet multisignature, a stranger} on committees of 1 and 4 keys (contract index 0 and last), plus Alphabet contracts whose index is the committee size or beyond it (no own node: every member refused); oracle: with g = balance + GAS minted by the NEO self-transfer (read from the native GAS notification), Proxy +floor(g/2), each Inner Ring node +floor((g-floor(g/2))*7/8/N), the contract keeps the rest, nobody else changes; refused callers and g<2 change nothing; non-trivial = every case",
 		"Inner Ring size >= 1")
 	defer func() { col.Flush(true) }()
 	nshards, shard := envInt("VERIF_NSHARDS", 1), envInt("VERIF_SHARD_INDEX", 0)
@@ -537,6 +566,9 @@ func TestC19Emit(t *testing.T) {
 						}
 						for _, caller := range []string{"stranger", "other-member", "alphabet-multisig", "own"} {
 							w.emitOnce(h, ci, bal, neo, caller)
+						}
+						if r == 1 && neo == 0 {
+							w.orphanEmit(h, bal)
 						}
 						h.NonTrivial()
 					})
